@@ -34,27 +34,29 @@ func SplitPkgConfigFlags(s string) []string {
 
 	for i < len(s) {
 		// Start a new part
-		if current.Len() > 0 {
-			result = append(result, strings.TrimSpace(current.String()))
-			current.Reset()
-		}
-		// Write "-" and the flag character
-		current.WriteByte('-')
-		i++
-		if i < len(s) {
-			current.WriteByte(s[i])
+		current.Reset()
+		if s[i] == '-' {
+			// Write "-" and the flag character
+			current.WriteByte('-')
 			i++
-		}
-		// Skip spaces after flag character
-		for i < len(s) && (s[i] == ' ' || s[i] == '\t') {
-			i++
-		}
+			if i < len(s) && s[i] != ' ' && s[i] != '\t' {
+				current.WriteByte(s[i])
+				i++
+			}
+			// Skip spaces after flag character
+			start := i
+			for i < len(s) && (s[i] == ' ' || s[i] == '\t') {
+				i++
+			}
 
-		// Check if next character is another flag (short flag with no argument)
-		if i < len(s) && s[i] == '-' {
-			// This is a short flag with no argument, finish current flag
-			continue
+			// Check if the next word is another flag (short flag with no argument).
+			// A "-" directly after the flag character belongs to the content.
+			if i == len(s) || (i > start && s[i] == '-') || current.Len() == 1 {
+				result = append(result, current.String())
+				continue
+			}
 		}
+		// else: not a flag (e.g. a library file): keep the word as it is
 
 		// Read content until next space
 		for i < len(s) {
@@ -71,8 +73,8 @@ func SplitPkgConfigFlags(s string) []string {
 				for j < len(s) && (s[j] == ' ' || s[j] == '\t') {
 					j++
 				}
-				// If we've seen content, check for new flag
-				if j < len(s) && s[j] == '-' {
+				// A new flag or the end of the input finishes the part
+				if j == len(s) || s[j] == '-' {
 					i = j
 					break
 				}
@@ -84,10 +86,7 @@ func SplitPkgConfigFlags(s string) []string {
 				i++
 			}
 		}
-	}
-	// Add the last part
-	if current.Len() > 0 {
-		result = append(result, strings.TrimSpace(current.String()))
+		result = append(result, current.String())
 	}
 	return result
 }
